@@ -40,7 +40,8 @@ func (m *FileImporter) Name() string {
 			path = p
 		}
 	}
-	return path
+	// the name identifies the module: every spelling of a path must give it
+	return filepath.Clean(path)
 }
 
 // Import returns the content of the path determined by Name call. Empty name
